@@ -401,7 +401,7 @@ func TestC14(t *testing.T) {
 	if env.Thorough() {
 		nv = 4
 	}
-	tp := &twoPass{id: "C14", salt: 14, checks: env.Pick(200, 2000), rec: rec,
+	tp := &twoPass{id: "C14", salt: 14, checks: env.Pick(200, 1000), rec: rec,
 		gen: func(t *rapid.T) *flowCase { return genFlowCase(t, gogen.ConcurrentProfile(off), nv) },
 		unit: func(c *flowCase) native.Unit {
 			u := c.unit()
